@@ -9,7 +9,7 @@ import vlib
 
 def run(c):
     scen = c.path("buf_scen.ndjson")
-    cfgs = c.pick(["MC_BufScen_quick", "MC_BufScen_quick4"], ["MC_BufScen_quick", "MC_BufScen_thorough"])
+    cfgs = c.pick(["MC_BufScen_quick", "MC_BufScen_quick4", "MC_BufScen_sizes", "MC_BufScen_sizes4q"], ["MC_BufScen_quick", "MC_BufScen_thorough", "MC_BufScen_sizes", "MC_BufScen_sizes4"])
     nscen = 0
     with open(scen, "w") as out:
         for cfg in cfgs:
@@ -26,7 +26,7 @@ def run(c):
     r1 = vlib.validate_scenarios(c, "gossip", "EventsBufferTrace", trace)
     # concurrent pushers
     ctrace = c.path("buf_conc.ndjson")
-    cstats = json.loads(c.vh(["bufconc", c.pick(300, 5000), ctrace]).stdout)
+    cstats = json.loads(c.vh(["bufconc", c.pick(600, 8000), ctrace]).stdout)
     c.log("concurrent runs:", cstats)
     r2 = vlib.validate_scenarios(c, "gossip", "EventsBufferTrace", ctrace)
     samples = []
